@@ -13,7 +13,7 @@ variable {K : Type} [Field K] [LinearOrder K] [IsStrictOrderedRing K]
 
 /-- utils.quadraticRoots -/
 
-def quadraticRoots (sqrt : K → K) (a b c : K) : List K :=
+@[gen_def] def quadraticRoots (sqrt : K → K) (a b c : K) : List K :=
   if a ≠ (0 : K) then
     if ((b * b) - (((4 : K) * a) * c)) > (0 : K) then
       if (((-b) / ((2 : K) * a)) - ((sqrt ((b * b) - (((4 : K) * a) * c))) / ((2 : K) * a))) ≥ (0 : K) then
@@ -55,31 +55,31 @@ def quadraticRoots (sqrt : K → K) (a b c : K) : List K :=
 
 /-- arguments CubicBezier._findDRoots passes to quadraticRoots (x then y) -/
 
-def cubic_dcoeffs_ax (p0x p0y p1x p1y p2x p2y p3x p3y : K) : K :=
+@[gen_def] def cubic_dcoeffs_ax (p0x p0y p1x p1y p2x p2y p3x p3y : K) : K :=
   ((((p1x - p0x) * (3 : K)) - ((2 : K) * ((p2x - p1x) * (3 : K)))) + ((p3x - p2x) * (3 : K)))
 
-def cubic_dcoeffs_bx (p0x p0y p1x p1y p2x p2y p3x p3y : K) : K :=
+@[gen_def] def cubic_dcoeffs_bx (p0x p0y p1x p1y p2x p2y p3x p3y : K) : K :=
   ((2 : K) * (((p2x - p1x) * (3 : K)) - ((p1x - p0x) * (3 : K))))
 
-def cubic_dcoeffs_cx (p0x p0y p1x p1y p2x p2y p3x p3y : K) : K :=
+@[gen_def] def cubic_dcoeffs_cx (p0x p0y p1x p1y p2x p2y p3x p3y : K) : K :=
   ((p1x - p0x) * (3 : K))
 
-def cubic_dcoeffs_ay (p0x p0y p1x p1y p2x p2y p3x p3y : K) : K :=
+@[gen_def] def cubic_dcoeffs_ay (p0x p0y p1x p1y p2x p2y p3x p3y : K) : K :=
   ((((p1y - p0y) * (3 : K)) - ((2 : K) * ((p2y - p1y) * (3 : K)))) + ((p3y - p2y) * (3 : K)))
 
-def cubic_dcoeffs_by (p0x p0y p1x p1y p2x p2y p3x p3y : K) : K :=
+@[gen_def] def cubic_dcoeffs_by (p0x p0y p1x p1y p2x p2y p3x p3y : K) : K :=
   ((2 : K) * (((p2y - p1y) * (3 : K)) - ((p1y - p0y) * (3 : K))))
 
-def cubic_dcoeffs_cy (p0x p0y p1x p1y p2x p2y p3x p3y : K) : K :=
+@[gen_def] def cubic_dcoeffs_cy (p0x p0y p1x p1y p2x p2y p3x p3y : K) : K :=
   ((p1y - p0y) * (3 : K))
 
-def cubic_dcoeffs (p0x p0y p1x p1y p2x p2y p3x p3y : K) : List K :=
+@[gen_def] def cubic_dcoeffs (p0x p0y p1x p1y p2x p2y p3x p3y : K) : List K :=
   [cubic_dcoeffs_ax p0x p0y p1x p1y p2x p2y p3x p3y, cubic_dcoeffs_bx p0x p0y p1x p1y p2x p2y p3x p3y, cubic_dcoeffs_cx p0x p0y p1x p1y p2x p2y p3x p3y, cubic_dcoeffs_ay p0x p0y p1x p1y p2x p2y p3x p3y, cubic_dcoeffs_by p0x p0y p1x p1y p2x p2y p3x p3y, cubic_dcoeffs_cy p0x p0y p1x p1y p2x p2y p3x p3y]
 
 
 /-- QuadraticBezier._findDRoots (= findExtremes) -/
 
-def quad_findDRoots (p0x p0y p1x p1y p2x p2y : K) : List K :=
+@[gen_def] def quad_findDRoots (p0x p0y p1x p1y p2x p2y : K) : List K :=
   if ((p0x - ((2 : K) * p1x)) + p2x) ≠ (0 : K) then
     if ((p0y - ((2 : K) * p1y)) + p2y) ≠ (0 : K) then
       if ((p0x - p1x) / ((p0x - ((2 : K) * p1x)) + p2x)) ≥ ((1 : K) / 100) then
@@ -130,40 +130,40 @@ def quad_findDRoots (p0x p0y p1x p1y p2x p2y : K) : List K :=
 
 /-- arguments QuadraticBezier._findRoots('y') passes to quadraticRoots -/
 
-def quad_rootcoeffs_y_a (p0x p0y p1x p1y p2x p2y : K) : K :=
+@[gen_def] def quad_rootcoeffs_y_a (p0x p0y p1x p1y p2x p2y : K) : K :=
   ((p0y - ((2 : K) * p1y)) + p2y)
 
-def quad_rootcoeffs_y_b (p0x p0y p1x p1y p2x p2y : K) : K :=
+@[gen_def] def quad_rootcoeffs_y_b (p0x p0y p1x p1y p2x p2y : K) : K :=
   ((2 : K) * (p1y - p0y))
 
-def quad_rootcoeffs_y_c (p0x p0y p1x p1y p2x p2y : K) : K :=
+@[gen_def] def quad_rootcoeffs_y_c (p0x p0y p1x p1y p2x p2y : K) : K :=
   p0y
 
-def quad_rootcoeffs_y (p0x p0y p1x p1y p2x p2y : K) : List K :=
+@[gen_def] def quad_rootcoeffs_y (p0x p0y p1x p1y p2x p2y : K) : List K :=
   [quad_rootcoeffs_y_a p0x p0y p1x p1y p2x p2y, quad_rootcoeffs_y_b p0x p0y p1x p1y p2x p2y, quad_rootcoeffs_y_c p0x p0y p1x p1y p2x p2y]
 
 
 /-- arguments QuadraticBezier.tOfPoint passes to quadraticRoots (x then y) -/
 
-def quad_tOfPoint_coeffs_ax (p0x p0y p1x p1y p2x p2y qx qy : K) : K :=
+@[gen_def] def quad_tOfPoint_coeffs_ax (p0x p0y p1x p1y p2x p2y qx qy : K) : K :=
   ((p0x - ((2 : K) * p1x)) + p2x)
 
-def quad_tOfPoint_coeffs_bx (p0x p0y p1x p1y p2x p2y qx qy : K) : K :=
+@[gen_def] def quad_tOfPoint_coeffs_bx (p0x p0y p1x p1y p2x p2y qx qy : K) : K :=
   ((2 : K) * (p1x - p0x))
 
-def quad_tOfPoint_coeffs_cx (p0x p0y p1x p1y p2x p2y qx qy : K) : K :=
+@[gen_def] def quad_tOfPoint_coeffs_cx (p0x p0y p1x p1y p2x p2y qx qy : K) : K :=
   (p0x - qx)
 
-def quad_tOfPoint_coeffs_ay (p0x p0y p1x p1y p2x p2y qx qy : K) : K :=
+@[gen_def] def quad_tOfPoint_coeffs_ay (p0x p0y p1x p1y p2x p2y qx qy : K) : K :=
   ((p0y - ((2 : K) * p1y)) + p2y)
 
-def quad_tOfPoint_coeffs_by (p0x p0y p1x p1y p2x p2y qx qy : K) : K :=
+@[gen_def] def quad_tOfPoint_coeffs_by (p0x p0y p1x p1y p2x p2y qx qy : K) : K :=
   ((2 : K) * (p1y - p0y))
 
-def quad_tOfPoint_coeffs_cy (p0x p0y p1x p1y p2x p2y qx qy : K) : K :=
+@[gen_def] def quad_tOfPoint_coeffs_cy (p0x p0y p1x p1y p2x p2y qx qy : K) : K :=
   (p0y - qy)
 
-def quad_tOfPoint_coeffs (p0x p0y p1x p1y p2x p2y qx qy : K) : List K :=
+@[gen_def] def quad_tOfPoint_coeffs (p0x p0y p1x p1y p2x p2y qx qy : K) : List K :=
   [quad_tOfPoint_coeffs_ax p0x p0y p1x p1y p2x p2y qx qy, quad_tOfPoint_coeffs_bx p0x p0y p1x p1y p2x p2y qx qy, quad_tOfPoint_coeffs_cx p0x p0y p1x p1y p2x p2y qx qy, quad_tOfPoint_coeffs_ay p0x p0y p1x p1y p2x p2y qx qy, quad_tOfPoint_coeffs_by p0x p0y p1x p1y p2x p2y qx qy, quad_tOfPoint_coeffs_cy p0x p0y p1x p1y p2x p2y qx qy]
 
 
